@@ -8802,9 +8802,17 @@ impl Deserialize for SystemTime {
         let mut temp = deserializer.read_u128()?;
         if temp >= (1u128 << 127) {
             temp &= (1u128 << 127) - 1; //Before UNIX Epoch
-            return Ok(SystemTime::UNIX_EPOCH - u128_duration_nanos(temp));
+            return SystemTime::UNIX_EPOCH
+                .checked_sub(u128_duration_nanos(temp))
+                .ok_or_else(|| SavefileError::GeneralError {
+                    msg: "SystemTime value out of range".to_string(),
+                });
         } else {
-            return Ok(SystemTime::UNIX_EPOCH + u128_duration_nanos(temp));
+            return SystemTime::UNIX_EPOCH
+                .checked_add(u128_duration_nanos(temp))
+                .ok_or_else(|| SavefileError::GeneralError {
+                    msg: "SystemTime value out of range".to_string(),
+                });
         }
     }
 }
